@@ -154,6 +154,10 @@ pub fn realise_fb(g: &Graph, salt: u64, arrays: bool) -> (String, Vec<(usize, us
                 } else {
                     s.push_str(&format!("{}\ninst{}_{} : {};\nEND_VAR\n", kw, i, j, recase(&format!("fb{}", j), z ^ (i * 31 + j) as u64)));
                 }
+                // the same edge a second time (two instances of one type): a wide graph, no new cycle
+                if mix(z ^ 0x2e) % 4 == 0 {
+                    s.push_str(&format!("VAR\ninst{}_{}b, inst{}_{}c : fb{};\nEND_VAR\n", i, j, i, j, j));
+                }
                 any = true;
             }
         }
@@ -235,6 +239,9 @@ pub fn realise_type(g: &Graph, salt: u64, arrays: bool) -> (String, Vec<(usize, 
                     } else {
                         s.push_str(&format!("e{}_{} : {};\n", i, j, recase(&format!("t{}", j), salt ^ (i * 31 + j) as u64)));
                     }
+                    if mix(salt ^ ((i * 16 + j) as u64 * 59)) % 4 == 0 {
+                        s.push_str(&format!("e{}_{}b : t{};\n", i, j, j));
+                    }
                 }
             }
             s.push_str("END_STRUCT;\n");
@@ -288,6 +295,9 @@ pub fn realise_mixed(g: &Graph, salt: u64, arrays: bool) -> Option<(String, Vec<
                     } else {
                         s.push_str(&format!("inst{}_{} : {};\n", i, j, recase(&name(j), salt ^ (i * 31 + j) as u64)));
                     }
+                    if mix(salt ^ ((i * 16 + j) as u64 * 61)) % 4 == 0 {
+                        s.push_str(&format!("inst{}_{}b : {};\n", i, j, name(j)));
+                    }
                     any = true;
                 }
             }
@@ -309,6 +319,9 @@ pub fn realise_mixed(g: &Graph, salt: u64, arrays: bool) -> Option<(String, Vec<
                         s.push_str(&format!("e{}_{} : ARRAY[0..1] OF {};\n", i, j, recase(&name(j), salt ^ (i * 31 + j) as u64)));
                     } else {
                         s.push_str(&format!("e{}_{} : {};\n", i, j, recase(&name(j), salt ^ (i * 31 + j) as u64)));
+                    }
+                    if mix(salt ^ ((i * 16 + j) as u64 * 67)) % 4 == 0 {
+                        s.push_str(&format!("e{}_{}b : {};\n", i, j, name(j)));
                     }
                     any = true;
                 }
@@ -434,7 +447,7 @@ pub fn run(ctx: &Ctx) -> i32 {
         ctx.tier,
         ctx.seed,
         "exploration",
-        "directed graphs with self-loops: ALL graphs on 1..4 nodes (2+16+512+65536, exhaustive) and random graphs on 5..12 nodes (edge density drawn per case, DAG-biased half of the time with an optional single back edge), each realised as a function-block instance graph (VAR / VAR_INPUT / VAR_OUTPUT instances) as a type graph (alias / structure element) and as a mixed graph (every node a function block or a structure, edges = instance variables / structure elements; in a third of the graphs a quarter of the edges go through ARRAY OF and are soft: cycles only through them are not judged), declarations in a seed-derived order, every reference spelled in lower, UPPER or Capitalised case, other variables / elements (plain, initialised, enumeration, array, string, structure with initialiser) declared before the edge declarations. Oracle: reference DFS cycle test (cross-checked by transitive closure for n<=4): cyclic => P0010 or P0013 reported; acyclic => neither. Non-trivial: >= 2 nodes and >= 1 edge; distinct by program text.",
+        "directed graphs with self-loops: ALL graphs on 1..4 nodes (2+16+512+65536, exhaustive) and random graphs on 5..12 nodes (edge density drawn per case, DAG-biased half of the time with an optional single back edge), each realised as a function-block instance graph (VAR / VAR_INPUT / VAR_OUTPUT instances) as a type graph (alias / structure element) and as a mixed graph (every node a function block or a structure, edges = instance variables / structure elements; in a third of the graphs a quarter of the edges go through ARRAY OF and are soft: cycles only through them are not judged), declarations in a seed-derived order, every reference spelled in lower, UPPER or Capitalised case, other variables / elements (plain, initialised, enumeration, array, string, structure with initialiser) declared before the edge declarations, a quarter of the edges declared twice (two instances / elements of one type). Oracle: reference DFS cycle test (cross-checked by transitive closure for n<=4): cyclic => P0010 or P0013 reported; acyclic => neither. Non-trivial: >= 2 nodes and >= 1 edge; distinct by program text.",
     );
     // exhaustive part
     let mut items: Vec<(usize, u64)> = vec![];
